@@ -32,8 +32,11 @@ def items(ctx):
         if minlen > 1 and rng.random() < 0.2:
             p = 1
             psi = [p, p, p, p]
-        st = {"s1": [[0]], "s2": [[0]], "inner": "sq", "w": rng.choice([0, 0, 1, 2, 3]), "pen": rng.choice([0, 0, 1]),
-              "ms": 0, "md": rng.choice([0, 0, 3, 5, 9, 15]), "mld": -1, "psi": psi}
+        # thresholds: none, between attainable distances (odd half-units), and EXACTLY an attainable distance
+        # (even half-units = integer max_dist: ties between threshold, distance and lower bound)
+        st = {"s1": [[0]], "s2": [[0]], "inner": rng.choice(["sq", "sq", "eu"]), "w": rng.choice([0, 0, 1, 2, 3]),
+              "pen": rng.choice([0, 0, 1]), "ms": 0, "md": rng.choice([0, 0, 3, 5, 9, 15, 2, 4, 6, 8]), "mld": -1,
+              "psi": psi}
         hist = []
         for _ in range(rng.randint(1, 4)):
             op = rng.choice(["kbest", "kbest", "kbest", "best", "align", "kbest_fast", "reset"])
